@@ -63,6 +63,17 @@
                                 when one of these two conditions fails (F10/M1 resp. F10/M2) — outside `Clean2` 87% of the events fail.
     * `idstar_sound_fragment2R` … and on FRAGMENT 2R (`InFragment2R`, decidable by `inFragment2RB`): events with ANY number of worlds
                                 that violate effectiveness, consist of tautologies, or are reduced to fragment 2 by line 3.
+    * `idstar_sound_fragment3`  … and on FRAGMENT 3 (`InFragment3`, decidable by `inFragment3B`): events that are STILL MULTI-WORLD after line 3
+                                and whose counterfactual graph has at most one non-self-intervened node per variable, no
+                                non-self-intervened node named like a subscript, consistent subscripts, represented bidirected edges, and
+                                keeps the polarities (`Frag3At`, Lemmas/CfMwC.lean).  Proof (Lemmas/CfMwA–D): the invariants of C18's
+                                merge loop read off for the model at hand (every parent of a node is represented by a parent node of
+                                equal value wherever the earlier conjuncts hold), `mw_local` (the joint event of the nodes, each in
+                                its own world, is the joint local-mechanism event — induction along the processing order),
+                                `mw_marginal`, the c-component factorisation, and the single-world theorem for the recursive calls.
+                                Measured: 87.5% of 39 906 generated events lie in fragments 1–3 (none answered wrongly); outside them
+                                86% of the single-world events and 88% of the multi-world events that get an estimand are answered
+                                wrongly: the proved boundary is the measured one.
     * `idstar_answers_oneworld` on a single-world event ID* never refuses
     * `idstar_zero_iff_line2_oneworld`, `idstar_zero_sound_oneworld`, `idstar_never_zero_fragment`
                                 ZERO on single-world events (fragments 1, 2 included): ID* returns Zero IFF the event violates the
@@ -77,12 +88,12 @@
                                 graph is connected and line 8's conflict test fires; the recursive calls of line 6 never refuse.
     * vocabulary (C06 part): Props/C06Cf.lean
 
-  -- OPEN (stated in full, NOT proved; on the current tree the first one is FALSE outside fragment 2R — F10, see known_findings.jsonl):
+  -- OPEN (stated in full, NOT proved; on the current tree the first one is FALSE outside fragments 1–3 — F10, see known_findings.jsonl):
   --   theorem idstar_sound : idStar ordf dordf G ev = .ok e → e ≠ .zero → M.Compatible G → EventWF M ev → ν.Distinct →
   --       cden2 M ν dom e (values of the event) (fun n => ν n false) = probEvent M ν ev
-  --     proved on fragments 1, 2, 2R.  FALSE of the code: (a) single-world events outside `Clean2` (F10/M1, M2: the estimand is
+  --     proved on fragments 1, 2, 2R, 3.  FALSE of the code: (a) single-world events outside `Clean2` (F10/M1, M2: the estimand is
   --     right only under the conflating reading, `idstar_sound_oneworld_conflating`); (b) events that are still multi-world after
-  --     line 3 (F10/M3a, M3b, D1, D2 and M1/M2 again): 13% of the thorough stream, about 40% of them wrong
+  --     line 3 and violate `Frag3At` (F10/M3a, M3b, D1, D2 and M1/M2 again): 5–6% of the stream, 88% of them wrong
   --   theorem idstar_zero_sound : idStar ordf dordf G ev = .ok .zero → M.Compatible G → EventWF M ev → ν.Distinct →
   --       probEvent M ν ev = 0
   --     proved for single-world events (`idstar_zero_sound_oneworld`) and, for every event, for Zero from lines 2 and 5
@@ -956,6 +967,10 @@ example : inFragment2B sortWorlds gBA [(B, ⟨1, true⟩), (A, ⟨0, false⟩)] 
 /-- the hypothesis `InFragment2` of `idstar_sound_fragment2` is satisfiable by an event outside fragment 1 (with `PermOrder sortWorlds`:
 `permOrder_sortWorlds`) -/
 example : InFragment2 sortWorlds gBA [(A, ⟨0, true⟩), (B, ⟨1, false⟩)] := inFragment2B_sound gBA _ (by decide)
+/-- fragment 3 is not empty: the two-world event `B = b ∧ A_{c} = a` on `B → A ← C` (worlds `{}` and `{c}`; `C` is
+not an ancestor of `B`) is still multi-world after line 3 and satisfies `Frag3At` -/
+example : inFragment3B sortWorlds (MG.fromEdges [0, 1, 2] [(1, 0), (2, 0)] [])
+    [(B, ⟨1, false⟩), ({ name := 0, ivs := [⟨2, false⟩] }, ⟨0, false⟩)] = true := by decide
 /-- … `B_b = b'` is inside (line 2 answers Zero, soundly) -/
 example : inFragment2B sortWorlds gBA [({ name := 1, ivs := [⟨1, false⟩] }, ⟨1, true⟩)] = true := by decide
 
